@@ -12,7 +12,7 @@ from __future__ import annotations
 
 import ast
 
-from ..core import src, AnalysisError, parent
+from ..core import src, AnalysisError, parent, qual
 from .. import units as U
 from ..resolve import inline_locals, expand
 
@@ -1042,6 +1042,353 @@ def typestate(chk, mod, cls, only=None):
     chk.extra["exhaustive"] = True
 
 
+# ---------------------------------------------------------------------------------------------------------------------------------
+# R: the stored routes (entries of LayoutManager's route table) are separate list objects
+#
+# `self._route_map[a][b]` is the list of steps setLayout / transpose walks from a to b.  The table is built by joining known routes:
+# the joined route must be a NEW list.  An operation that lengthens a stored entry in place (`+=`, `.extend`, `operator.iconcat/iadd`,
+# `functools.reduce(operator.iconcat, legs)` WITHOUT a fresh initialiser: the accumulator is the first leg itself) changes the route of
+# another pair of layouts, and storing its result makes two pairs share one list.
+ROUTE_TABLE = "self._route_map"
+_INPLACE_METHODS = ("append", "extend", "insert", "pop", "remove", "clear", "sort", "reverse")
+_GROWERS = ("iconcat", "iadd", "__iadd__", "__iconcat__")
+_COPIERS = ("list", "sorted", "tuple", "deepcopy", "copy", "sum", "reversed")
+
+
+def _table_keys(e, aliases=()):
+    """[index expressions] from the route table down to `e` ([] = the table itself); None when `e` is not a read of the table"""
+    keys = []
+    while True:
+        if isinstance(e, ast.Subscript) and not isinstance(e.slice, ast.Slice):
+            keys.append(e.slice)
+            e = e.value
+        elif isinstance(e, ast.Call) and isinstance(e.func, ast.Attribute) and e.func.attr in ("get", "__getitem__") and len(e.args) == 1:
+            keys.append(e.args[0])
+            e = e.func.value
+        else:
+            break
+    return list(reversed(keys)) if src(e) == ROUTE_TABLE or (isinstance(e, ast.Name) and e.id in aliases) else None
+
+
+class _RouteFlow:
+    """where does a value come from: a fresh list / a stored table entry / a stored entry that was lengthened in place"""
+
+    def __init__(self, tree):
+        import copy
+        self.copy = copy
+        self.methods = {}
+        self.alias = {}
+        for c in ast.walk(tree):
+            if isinstance(c, ast.ClassDef):
+                for st in c.body:
+                    if isinstance(st, ast.FunctionDef):
+                        self.methods.setdefault(st.name, []).append(st)
+                        # local names that ARE the table: `routes = self._route_map` (bound once, by that assignment only)
+                        al = set()
+                        for a in ast.walk(st):
+                            if isinstance(a, ast.Assign) and len(a.targets) == 1 and isinstance(a.targets[0], ast.Name) and src(a.value) == ROUTE_TABLE:
+                                al.add(a.targets[0].id)
+                        self.alias[id(st)] = {n for n in al if len(self.binds(st, n)) == 1 and not self.other_stores(st, n)}
+
+    # -- substitution of the actual arguments of a followed helper, folding of (a, b, c)[k] and (a, b, c)[k:]
+    def norm(self, e, env):
+        flow = self
+
+        class T(ast.NodeTransformer):
+            def visit_Name(self, n):
+                if isinstance(n.ctx, ast.Load) and n.id in env:
+                    return flow.copy.deepcopy(env[n.id])
+                return n
+
+            def visit_Subscript(self, n):
+                self.generic_visit(n)
+                v = n.value
+                if isinstance(v, (ast.Tuple, ast.List)) and not any(isinstance(x, ast.Starred) for x in v.elts):
+                    s = n.slice
+                    if isinstance(s, ast.Constant) and isinstance(s.value, int) and -len(v.elts) <= s.value < len(v.elts):
+                        return v.elts[s.value]
+                    if isinstance(s, ast.Slice) and s.step is None and all(
+                            p is None or (isinstance(p, ast.Constant) and isinstance(p.value, int)) for p in (s.lower, s.upper)):
+                        lo = s.lower.value if s.lower is not None else None
+                        hi = s.upper.value if s.upper is not None else None
+                        return ast.Tuple(elts=v.elts[lo:hi], ctx=ast.Load())
+                return n
+        return T().visit(self.copy.deepcopy(e)) if env else e
+
+    def binds(self, fn, name):
+        out = []
+        for st in ast.walk(fn):
+            if isinstance(st, ast.Assign) and any(isinstance(t, ast.Name) and t.id == name for t in st.targets):
+                out.append(st.value)
+            elif isinstance(st, ast.AnnAssign) and isinstance(st.target, ast.Name) and st.target.id == name and st.value is not None:
+                out.append(st.value)
+        return out
+
+    def other_stores(self, fn, name):
+        """the name is also bound by something that is not a plain assignment (loop / with / unpacking / walrus / parameter)"""
+        for n in ast.walk(fn):
+            if isinstance(n, ast.Name) and n.id == name and isinstance(n.ctx, ast.Store):
+                p = parent(n)
+                if not (isinstance(p, (ast.Assign, ast.AnnAssign, ast.AugAssign)) and (n in getattr(p, "targets", []) or getattr(p, "target", None) is n)):
+                    return True
+            if isinstance(n, ast.arg) and n.arg == name:
+                return True
+        return False
+
+    def name_mutations(self, fn, name):
+        out = []
+        for n in ast.walk(fn):
+            if isinstance(n, ast.AugAssign) and isinstance(n.target, ast.Name) and n.target.id == name:
+                out.append(n)
+            elif isinstance(n, ast.Call) and isinstance(n.func, ast.Attribute) and n.func.attr in ("extend", "append", "insert", "__iadd__") \
+                    and isinstance(n.func.value, ast.Name) and n.func.value.id == name:
+                out.append(n)
+            elif isinstance(n, ast.Call) and isinstance(n.func, (ast.Attribute, ast.Name)) and \
+                    (n.func.attr if isinstance(n.func, ast.Attribute) else n.func.id) in _GROWERS and n.args and \
+                    isinstance(n.args[0], ast.Name) and n.args[0].id == name:
+                out.append(n)
+        return out
+
+    def touches(self, e, fn, seen=()):
+        for n in ast.walk(e):
+            if isinstance(n, ast.Attribute) and src(n) == ROUTE_TABLE:
+                return True
+            if isinstance(n, ast.Name) and isinstance(n.ctx, ast.Load) and fn is not None and n.id not in seen:
+                if any(self.touches(v, fn, seen + (n.id,)) for v in self.binds(fn, n.id)):
+                    return True
+            if isinstance(n, ast.Call) and isinstance(n.func, ast.Attribute) and isinstance(n.func.value, ast.Name) and n.func.value.id == "self":
+                for m in self.methods.get(n.func.attr, []):
+                    if any(isinstance(x, ast.Attribute) and src(x) == ROUTE_TABLE for x in ast.walk(m)):
+                        return True
+        return False
+
+    def first_of(self, seq, fn, env, normed=False):
+        """the expression of the FIRST element a sequence expression yields (None: not known)"""
+        if not normed:
+            seq = self.norm(seq, env)
+        if isinstance(seq, (ast.Tuple, ast.List)):
+            return seq.elts[0] if seq.elts and not isinstance(seq.elts[0], ast.Starred) else None
+        if isinstance(seq, (ast.GeneratorExp, ast.ListComp)) and len(seq.generators) == 1 and not seq.generators[0].ifs:
+            g = seq.generators[0]
+            f = self.first_of(g.iter, fn, env, normed=True)
+            if f is None:
+                return None
+            env2 = {}
+            if isinstance(g.target, ast.Name):
+                env2[g.target.id] = f
+            elif isinstance(g.target, ast.Tuple) and isinstance(f, ast.Tuple) and len(f.elts) == len(g.target.elts) \
+                    and all(isinstance(t, ast.Name) for t in g.target.elts):
+                for t, x in zip(g.target.elts, f.elts):
+                    env2[t.id] = x
+            else:
+                return None
+            return self.norm(seq.elt, env2)
+        if isinstance(seq, ast.Call) and isinstance(seq.func, ast.Name) and seq.func.id == "zip" and seq.args and not seq.keywords:
+            fs = [self.first_of(a, fn, env, normed=True) for a in seq.args]
+            return None if any(x is None for x in fs) else ast.Tuple(elts=fs, ctx=ast.Load())
+        if isinstance(seq, ast.Call) and isinstance(seq.func, ast.Name) and seq.func.id in ("iter", "list", "tuple") and len(seq.args) == 1:
+            return self.first_of(seq.args[0], fn, env, normed=True)
+        if isinstance(seq, ast.Subscript) and isinstance(seq.slice, ast.Slice) and seq.slice.step is None and \
+                (seq.slice.lower is None or (isinstance(seq.slice.lower, ast.Constant) and isinstance(seq.slice.lower.value, int)
+                                             and seq.slice.lower.value >= 0)):
+            k = seq.slice.lower.value if seq.slice.lower is not None else 0
+            return ast.Subscript(value=seq.value, slice=ast.Constant(value=k), ctx=ast.Load())
+        if isinstance(seq, ast.Name):
+            b = self.binds(fn, seq.id) if fn is not None else []
+            if len(b) == 1 and not self.other_stores(fn, seq.id) and not self.name_mutations(fn, seq.id):
+                return self.first_of(b[0], fn, env)
+            if not b:
+                return ast.Subscript(value=seq, slice=ast.Constant(value=0), ctx=ast.Load())
+        return None
+
+    def origin(self, e, fn, env, depth=0, normed=False):
+        """('fresh'|'unrelated', None) / ('entry', keys) / ('grown', keys, how) / ('unknown', reason)"""
+        if not normed:
+            e = self.norm(e, env)
+        if isinstance(e, (ast.Constant, ast.List, ast.ListComp, ast.Tuple, ast.Dict, ast.Set, ast.JoinedStr, ast.BinOp, ast.DictComp, ast.SetComp)):
+            return ("fresh", None)
+        if isinstance(e, ast.Subscript) and isinstance(e.slice, ast.Slice):
+            return ("fresh", None)
+        if isinstance(e, ast.IfExp):
+            return self.join([self.origin(e.body, fn, env, depth, True), self.origin(e.orelse, fn, env, depth, True)])
+        keys = _table_keys(e, self.alias.get(id(fn), ()))
+        if keys is not None:
+            if len(keys) >= 2:
+                return ("entry", [src(k) for k in keys])
+            return ("unknown", f"`{src(e)}` is the table or one of its rows")
+        if isinstance(e, ast.Call):
+            f = e.func
+            nm = f.attr if isinstance(f, ast.Attribute) else f.id if isinstance(f, ast.Name) else ""
+            if nm in _COPIERS:
+                return ("fresh", None)
+            if nm == "reduce" and len(e.args) >= 2 and not e.keywords:
+                op = e.args[0]
+                opn = op.attr if isinstance(op, ast.Attribute) else op.id if isinstance(op, ast.Name) else ""
+                if opn in _GROWERS:
+                    if len(e.args) == 3:
+                        o = self.origin(e.args[2], fn, env, depth, normed=True)
+                        if o[0] == "entry":
+                            return ("grown", o[1], f"`{src(e)}`: the initialiser of the in-place reduction is the stored entry itself")
+                        return o if o[0] in ("fresh", "grown") else ("unknown", f"initialiser of `{src(e)}` not followed")
+                    first = self.first_of(e.args[1], fn, env, normed=True)
+                    if first is None:
+                        return ("unknown", f"first element of the sequence reduced in place by `{src(e)}` not known") \
+                            if self.touches(e.args[1], fn) else ("unrelated", None)
+                    o = self.origin(first, fn, env, depth, normed=True)
+                    if o[0] == "entry":
+                        return ("grown", o[1], f"`{src(e)}` has no initialiser: the accumulator `{opn}` extends in place is the first element "
+                                               f"of the sequence, the stored entry `{src(first)}`")
+                    return o
+                if opn in ("add", "concat", "__add__") or isinstance(op, ast.Lambda) and isinstance(op.body, ast.BinOp):
+                    return ("fresh", None)
+            if nm in _GROWERS and len(e.args) == 2 and not (isinstance(f, ast.Attribute) and nm.startswith("__")):
+                o = self.origin(e.args[0], fn, env, depth, normed=True)
+                if o[0] == "entry":
+                    return ("grown", o[1], f"`{src(e)}` extends the stored entry `{src(e.args[0])}` in place and returns it")
+                return o
+            if isinstance(f, ast.Attribute) and isinstance(f.value, ast.Name) and f.value.id == "self" and nm in self.methods:
+                ms = self.methods[nm]
+                if len(ms) == 1 and depth < 3 and not any(isinstance(a, ast.Starred) for a in e.args) and all(k.arg for k in e.keywords):
+                    m = ms[0]
+                    a = m.args
+                    params = [p.arg for p in a.posonlyargs + a.args][1:]
+                    env2 = {}
+                    for p, x in zip(params, e.args):
+                        env2[p] = x
+                    if len(e.args) > len(params):
+                        if a.vararg is None:
+                            return ("unknown", f"call `{src(e)}` does not fit the helper's parameters")
+                        env2[a.vararg.arg] = ast.Tuple(elts=list(e.args[len(params):]), ctx=ast.Load())
+                    elif a.vararg is not None:
+                        env2[a.vararg.arg] = ast.Tuple(elts=[], ctx=ast.Load())
+                    for k in e.keywords:
+                        env2[k.arg] = k.value
+                    rets = [r.value for r in ast.walk(m) if isinstance(r, ast.Return) and r.value is not None]
+                    if not rets:
+                        return ("unknown", f"helper `{nm}` returns nothing")
+                    return self.join([self.origin(r, m, env2, depth + 1) for r in rets])
+                if self.touches(e, fn):
+                    return ("unknown", f"helper call `{src(e)}` not followed")
+            if self.touches(e, fn):
+                return ("unknown", f"`{src(e)}` receives stored routes and is not modelled")
+            return ("unrelated", None)
+        if isinstance(e, ast.Name) and fn is not None:
+            b = self.binds(fn, e.id)
+            if not b:
+                return ("unknown", f"`{e.id}` is not bound by an assignment") if self.other_stores(fn, e.id) else ("unrelated", None)
+            os_ = [self.origin(v, fn, env, depth) for v in b]
+            o = self.join(os_)
+            muts = self.name_mutations(fn, e.id)
+            if muts and any(x[0] == "entry" for x in os_):
+                ent = [x for x in os_ if x[0] == "entry"][0]
+                if len(os_) == 1 and not self.other_stores(fn, e.id):
+                    return ("grown", ent[1], f"`{e.id}` is the stored entry `{src(b[0])}` (no copy) and `{src(muts[0])}` extends it in place")
+                return ("unknown", f"`{e.id}` may be a stored entry and is extended in place by `{src(muts[0])}`")
+            if self.other_stores(fn, e.id) and o[0] in ("fresh", "unrelated"):
+                return ("unknown", f"`{e.id}` is also bound by a loop / unpacking")
+            return o
+        if self.touches(e, fn):
+            return ("unknown", f"`{src(e)}` not modelled")
+        return ("unrelated", None)
+
+    @staticmethod
+    def join(os_):
+        for kind in ("grown", "unknown", "entry"):
+            for o in os_:
+                if o[0] == kind:
+                    if kind == "entry" and len({tuple(x[1]) for x in os_ if x[0] == "entry"}) > 1:
+                        return ("unknown", "one of several stored entries")
+                    if kind == "grown" and not all(x[0] == "grown" and x[1] == o[1] for x in os_):
+                        return ("grown", None, o[2])
+                    return o
+        return ("fresh", None) if any(o[0] == "fresh" for o in os_) else ("unrelated", None)
+
+
+def route_entries_separate(chk):
+    mod = chk.mod(U.LAYOUT)
+    flow = _RouteFlow(mod.tree)
+    fns = [m for ms in flow.methods.values() for m in ms if any(isinstance(x, ast.Attribute) and src(x) == ROUTE_TABLE for x in ast.walk(m))]
+    reported = set()
+    for fn in fns:
+        q = qual(fn)
+        for st in ast.walk(fn):
+            if not isinstance(st, ast.Assign):
+                continue
+            for t in st.targets:
+                keys = _table_keys(t, flow.alias.get(id(fn), ())) if isinstance(t, ast.Subscript) else None
+                if keys is None or len(keys) != 2:
+                    continue
+                tk = [src(k) for k in keys]
+                o = flow.origin(st.value, fn, {})
+                for n in ast.walk(st.value):
+                    reported.add(id(n))
+                cons = f"{src(t)} = {src(st.value)}"
+                if o[0] in ("fresh", "unrelated"):
+                    chk.ob("R1-route-entry-fresh", st, cons, True, "the stored route is a new list (no stored entry is extended in place or shared)",
+                           file=U.LAYOUT, func=q)
+                elif o[0] == "grown":
+                    # AUDIT - VIOLATED is true when (A1) the extended object IS a stored entry: established by `origin` (a direct read of the
+                    # table, or a name bound once to one, or the first element of the reduced sequence, whose first element is followed
+                    # through zip / slices / the actual arguments of the helper); (A2) the operation extends in place (iconcat / iadd / += /
+                    # extend on a list: entries are lists, `[]`-initialised by the builder); (A3) the entry extended is the entry of ANOTHER
+                    # pair of layouts than the one stored: key expressions known on both sides and different (otherwise UNDECIDED).
+                    known = {x.id for x in ast.walk(fn) if isinstance(x, ast.Name)}
+                    if o[1] is not None and o[1] != tk and len(o[1]) == 2 and \
+                            all(x.id in known for k in o[1] for x in ast.walk(ast.parse(k, mode='eval')) if isinstance(x, ast.Name)):
+                        chk.ob("R1-route-entry-fresh", st, cons, False,
+                               f"{o[2]}; so the stored route [{']['.join(o[1])}] is itself lengthened with the steps of the following leg(s) and "
+                               f"the SAME list object becomes route [{']['.join(tk)}]: a later transpose/setLayout from {o[1][0]} to {o[1][1]} "
+                               f"walks on to {tk[1]} (data ends in another layout than the one the Grid assumes). Join the legs into a new list "
+                               f"(`a + b`, or reduce(..., legs, []))", file=U.LAYOUT, func=q)
+                    else:
+                        chk.ob("R1-route-entry-fresh", st, cons, None,
+                               f"cannot decide: {o[2]}; which entry is extended is not known to differ from the entry stored", file=U.LAYOUT, func=q)
+                elif o[0] == "entry":
+                    if o[1] == tk:
+                        chk.ob("R1-route-entry-fresh", st, cons, True, "the entry is stored back under its own key", file=U.LAYOUT, func=q)
+                    else:
+                        chk.ob("R1-route-entry-fresh", st, cons, None,
+                               f"cannot decide: route [{']['.join(tk)}] becomes the same list object as the stored route [{']['.join(o[1])}] (no copy); "
+                               "harmless only if neither is ever changed in place", file=U.LAYOUT, func=q)
+                else:
+                    chk.ob("R1-route-entry-fresh", st, cons, None, f"cannot decide: {o[1]}", file=U.LAYOUT, func=q)
+        # in-place operations on stored entries
+        for n in ast.walk(fn):
+            if isinstance(n, ast.Call) and isinstance(n.func, ast.Attribute) and n.func.attr in _INPLACE_METHODS:
+                o = flow.origin(n.func.value, fn, {})
+                if o[0] != "entry":
+                    continue
+                if n.func.attr == "append" and len(n.args) == 1 and src(n.args[0]) == o[1][-1] and _table_keys(n.func.value) is not None:
+                    chk.ob("R2-route-entry-in-place", n, src(n), True,
+                           f"the direct route to {o[1][-1]} gets the single step {o[1][-1]} (its own key): initialisation of that entry", file=U.LAYOUT, func=q)
+                else:
+                    chk.ob("R2-route-entry-in-place", n, src(n), None,
+                           f"cannot decide: the stored route [{']['.join(o[1])}] is changed in place; correct only if this entry is being (re)built "
+                           "and no other pair of layouts shares the list", file=U.LAYOUT, func=q)
+            elif isinstance(n, ast.AugAssign) and (_table_keys(n.target) is not None if isinstance(n.target, ast.Subscript) else
+                                                   isinstance(n.target, ast.Name) and any(x[0] == "entry" for x in
+                                                                                          [flow.origin(v, fn, {}) for v in flow.binds(fn, n.target.id)])):
+                chk.ob("R2-route-entry-in-place", n, src(n), None,
+                       "cannot decide: a stored route is extended in place; correct only if this entry is being (re)built and no other pair shares the list",
+                       file=U.LAYOUT, func=q)
+            elif isinstance(n, ast.Assign) and any(isinstance(t, ast.Subscript) and isinstance(t.slice, ast.Slice) and
+                                                   flow.origin(t.value, fn, {})[0] == "entry" for t in n.targets):
+                chk.ob("R2-route-entry-in-place", n, src(n), None,
+                       "cannot decide: the content of a stored route is replaced in place (slice assignment); correct only if no other pair shares the list",
+                       file=U.LAYOUT, func=q)
+            elif isinstance(n, ast.Call) and id(n) not in reported:
+                f = n.func
+                nm = f.attr if isinstance(f, ast.Attribute) else f.id if isinstance(f, ast.Name) else ""
+                if nm == "reduce" or nm in _GROWERS:
+                    o = flow.origin(n, fn, {})
+                    if o[0] == "grown":
+                        chk.ob("R2-route-entry-in-place", n, src(n), None,
+                               f"cannot decide here: {o[2]}; whether the lengthened entry is the one being built is decided where the result is stored",
+                               file=U.LAYOUT, func=q)
+                    elif o[0] == "unknown":
+                        chk.ob("R2-route-entry-in-place", n, src(n), None, f"cannot decide: {o[1]}", file=U.LAYOUT, func=q)
+
+
 def run(chk):
     chk.explanation = (
         "Typestate enumeration: the Grid methods' bodies are interpreted from the AST as guarded transformers over "
@@ -1084,6 +1431,8 @@ def run(chk):
     # "layout changes never alter the field": the handler's element placement (same rules as C01)
     from .C01 import handler_contract
     handler_contract(chk, chk.mod(U.LAYOUT))
+    route_entries_separate(chk)
+    chk.floor("R1-route-entry-fresh", 2)
     if t_floor:
         chk.floor("T", t_floor)
     chk.floor("T9-driver-save-protocol", 3)
